@@ -2,7 +2,7 @@
 import itertools
 
 PID = "C10"
-LEAN_MODULES = ["Pkgcore.Props.C10"]
+LEAN_MODULES = ["Pkgcore.Props.C10", "Pkgcore.Props.C10Solver"]
 OBLIGATIONS = [
     "Pkgcore.C10.split_preserves_conjunction",
     "Pkgcore.C10.compile_equiv_partial",
@@ -13,11 +13,34 @@ OBLIGATIONS = [
     "Pkgcore.C10.solutions_complete",
     "Pkgcore.C10.solutions_nodup",
     "Pkgcore.C10.preferred_first",
+    # the solver itself (faithful model of snakeoil.constraints.Problem), for every problem
+    "Pkgcore.C10.Solver.forward_check_sound",
+    "Pkgcore.C10.Solver.solver_sound",
+    "Pkgcore.C10.Solver.solver_sound_counterexample",
+    "Pkgcore.C10.Solver.solver_complete",
+    "Pkgcore.C10.Solver.solver_nodup",
+    "Pkgcore.C10.Solver.solver_order",
+    "Pkgcore.C10.Solver.solver_preferred_first",
+    # C10's solver-dependent theorems again, without the contract
+    "Pkgcore.C10.solutions_exact_faithful",
+    "Pkgcore.C10.solutions_exact_faithful_counterexample",
+    "Pkgcore.C10.solutions_sound_faithful",
+    "Pkgcore.C10.solutions_complete_faithful",
+    "Pkgcore.C10.solutions_nodup_faithful",
+    "Pkgcore.C10.preferred_first_faithful",
+    "Pkgcore.C10.faithful_perm_contract",
 ]
 TRUSTED = [
-    "snakeoil.constraints.Problem (outside /repo) is a contracted parameter of the model: it enumerates every assignment of the domains that "
-    "satisfies all constraints exactly once, and yields the assignment made of the last value of every domain first whenever that one "
-    "satisfies; the correspondence run compares the real solver's solutions (as a multiset) and, in that case, its first solution with the model's",
+    "snakeoil.constraints.Problem (outside /repo) is modelled faithfully (Model/C10Solver.lean: _Domain with its hidden-value and state stacks, "
+    "__check with forward checking, the degree/MRV/name variable choice, the one-variable preprocessing of __iter__, the backtracking search) and "
+    "the theorems are proved of that model; what is trusted is the reading of the Python text: the iterative loop of __solve with its explicit "
+    "queue of frames is modelled as the recursion it flattens (a frame is pushed when the checks pass and popped, with pop_state, when the deeper "
+    "search is exhausted), dicts are association lists read by lookup, the iteration order of frozensets/sets (constraint scopes, the order of "
+    "self.variables) is taken to be immaterial (the code only takes a min over triples ending in the unique name and loops over all domains), a "
+    "constraint callable is a function of the values of its own variables. The run compares the real solver's ORDERED solution sequence with the "
+    "model's on every generated REQUIRED_USE query and on random raw constraint problems given directly to the real Problem",
+    "the earlier contract model (cartesian product filtered by the constraints) is kept; faithful_perm_contract proves the modelled solver yields "
+    "exactly its solutions (structures without empty groups), so the contract is a theorem now, not an assumption",
     "the REQUIRED_USE structure is the Dep of C09 as built by the real DepSet.parse (converted per case)",
 ]
 ASSUMPTIONS = [
@@ -30,7 +53,9 @@ RULE = ("random REQUIRED_USE strings (||, ^^, ??, all-of, conditionals, negated 
         "set/frozenset/tuple/list); satisfying sets enumerated by brute force with the specification; then *sessions* in one process: the same "
         "and related queries started again after a full enumeration, while earlier result iterators are suspended after 0..n items, drained "
         "later or closed early, every answer judged like a first answer; non-trivial = the constraint has a choice group or a conditional and "
-        "at least two variables")
+        "at least two variables; raw constraint problems for the solver: 3-6 variables with domains of 1-3 values in random order, 0-5 random "
+        "table constraints over 1-3 variables (also constraints without variables, repeated constraints, unsatisfiable ones), non-trivial = at "
+        "least one constraint over two or more variables")
 
 FLAGS = ["a", "b", "c", "d", "e"]
 
@@ -132,8 +157,15 @@ def run(ctx):
         ctx.count("forced_outside_iuse_%s" % bool([f for f in ft + ff if f not in iuse]))
         got = sorted(canon(a) for a in sols)
         want = sorted(canon(a) for a in rep["solutions"])
+        ordered_real = [canon(a) for a in sols]
+        ordered_model = [canon(a) for a in rep["ordered"]]
+        ctx.count("order_equals_product_order_%s" % (ordered_real == [canon(a) for a in rep["solutions"]]))
         if got != want:
             ctx.mismatch(case, f"solver returns {len(got)} solutions {got[:3]}..., the model {len(want)} {want[:3]}...")
+        elif ordered_real != ordered_model:
+            k = next(i for i, (x, y) in enumerate(zip(ordered_real, ordered_model)) if x != y) if len(ordered_real) == len(ordered_model) else -1
+            ctx.mismatch(case, f"the real solver yields its {len(ordered_real)} solutions in another order than the solver model "
+                               f"(first difference at position {k}): real {ordered_real[:4]}..., model {ordered_model[:4]}...")
         elif sols and canon(rep["solutions"][0]) == canon(rep["preferred"]) and canon(sols[0]) != canon(rep["solutions"][0]):
             # (beyond the first solution, and when the preferred assignment fails, the real solver's dynamic variable
             # ordering decides the order; the contract and the property only fix the preferred-first case)
@@ -181,6 +213,84 @@ def run(ctx):
         by_string.setdefault(case["required_use"], []).append(
             {"case": case, "d": d, "first_answer": sorted(canon(a) for a in sols),
              "preferred": canon(rep["preferred"]) if (idx is not None and out[idx][0]) else None})
+
+    # ------------------------------------------------------------------ the solver itself: raw constraint problems given directly to
+    # the real snakeoil Problem and to the solver model; the ORDERED solution sequences must agree, and the real output is judged
+    # by brute force (every assignment of domain values satisfying all constraints with a variable, each once).
+    from snakeoil.constraints import Problem
+
+    def real_csp(vars_, cons):
+        p = Problem()
+        for n, vals in vars_:
+            p.add_variable(tuple(vals), n)
+        for sc, rows in cons:
+            allowed = {tuple(r) for r in rows}
+            p.add_constraint((lambda sc, allowed: lambda **kw: tuple(kw[n] for n in sc) in allowed)(tuple(sc), allowed), frozenset(sc))
+        names = [n for n, _ in vars_]
+        return [[s[n] for n in names] for s in p]
+
+    def gen_csp():
+        nv = rng.randint(3, 6)
+        names = rng.sample(["a", "b", "c", "d", "e", "f", "ab", "ba", "B", "a_", "aa"], nv)
+        vars_ = [[n, rng.sample([0, 1, 2, 3], rng.randint(1, 3))] for n in names]
+        doms = dict(vars_)
+        cons = []
+        for _ in range(rng.choice([0, 1, 2, 2, 3, 3, 4, 5])):
+            sc = rng.sample(names, rng.choice([1, 2, 2, 2, 3, 3]))
+            allt = list(itertools.product(*[doms[n] for n in sc]))
+            keep = rng.choice([0.0] + [0.3, 0.5, 0.6, 0.7, 0.8, 0.9, 1.0] * 3)
+            rows = [list(t) for t in allt if rng.random() < keep]
+            cons.append([sc, rows])
+            if rng.random() < 0.1:
+                cons.append([sc, rows])                    # the same constraint twice
+        if rng.random() < 0.05:
+            cons.insert(rng.randint(0, len(cons)), [[], rng.choice([[], [[]]])])   # no variables: false / true; never called
+        return vars_, cons
+
+    csp_corpus = [
+        ([["a", [0, 1]], ["b", [0, 1]], ["c", [0, 1]]], []),
+        ([["a", [1]], ["b", [0, 1, 2]], ["c", [2, 0]]], [[["a", "b"], [[1, 0], [1, 2]]], [["b", "c"], [[0, 0], [2, 2], [2, 0]]]]),
+        ([["x", [0, 1, 2]], ["y", [0, 1, 2]], ["z", [0, 1, 2]]], [[["x", "y"], [[0, 1], [0, 2], [1, 0], [1, 2], [2, 0], [2, 1]]],
+                                                                     [["y", "z"], [[0, 1], [0, 2], [1, 2]]], [["z"], [[1], [2]]]]),
+        ([["a", [0, 1]], ["b", [0, 1]], ["c", [0, 1]]], [[["a"], []]]),                          # a one-variable constraint empties a domain
+        ([["a", [0, 1]], ["b", [0, 1]], ["c", [0, 1]]], [[[], []]]),                             # false constraint without variables: ignored
+        ([["a", [0, 1]], ["b", [1, 0]], ["c", [0, 1]]], [[["a", "b", "c"], [[0, 0, 1], [1, 1, 0], [1, 0, 1]]]]),
+        ([["b", [2, 1, 0]], ["a", [0, 1, 2]], ["c", [1, 2, 0]]], [[["a", "b"], [[0, 1], [1, 2], [2, 0], [2, 2]]], [["b", "c"], [[1, 1], [2, 0], [0, 2], [2, 2]]],
+                                                                       [["a", "c"], [[0, 1], [1, 0], [2, 2], [2, 0]]]]),
+    ]
+    csps = csp_corpus + [gen_csp() for _ in range(ctx.n(1500, 30000))]
+    if ctx.replay_cases:
+        csps = [(c["csp_vars"], c["csp_cons"]) for c in ctx.replay_cases if "csp_vars" in c] + csps
+    creps = ctx.model([{"cmd": "c10.csp", "vars": v, "cons": c} for v, c in csps])
+    for (vars_, cons), rep in zip(csps, creps):
+        case = {"csp_vars": vars_, "csp_cons": cons}
+        if rep == "bad-op":
+            ctx.mismatch(case, "driver rejected the raw constraint problem")
+            continue
+        try:
+            got = real_csp(vars_, cons)
+        except Exception as e:
+            ctx.mismatch(case, f"snakeoil Problem raised {type(e).__name__}: {e}")
+            continue
+        nontriv = any(len(sc) >= 2 for sc, _ in cons)
+        ctx.case(case, nontriv, key="CSP|" + repr(case))
+        ctx.count("csp_variables_%d" % len(vars_))
+        ctx.count("csp_solutions_%s" % (len(got) if len(got) < 4 else "4-15" if len(got) < 16 else "16+"))
+        for sc, _ in cons:
+            ctx.count("csp_constraint_arity_%d" % len(sc))
+        names = [n for n, _ in vars_]
+        brute = [list(t) for t in itertools.product(*[list(reversed(vals)) for _, vals in vars_])
+                 if all(not sc or [t[names.index(n)] for n in sc] in rows for sc, rows in cons)]
+        ctx.count("csp_order_equals_product_order_%s" % (got == brute))
+        if got != rep:
+            same = sorted(got) == sorted(rep)
+            ctx.mismatch(case, (f"the real solver and the solver model yield the same {len(got)} solutions in different orders: real {got[:4]}..., model {rep[:4]}..."
+                                if same else f"the real solver yields {len(got)} solutions {got[:3]}..., the solver model {len(rep)} {rep[:3]}..."))
+        if sorted(got) != sorted(brute):
+            ctx.mismatch(case, f"the real solver yields {len(got)} solutions, brute force (each assignment of domain values satisfying every constraint "
+                               f"with a variable, once) finds {len(brute)}")
+        elif brute and brute[0] == [vals[-1] for _, vals in vars_] and got[0] != brute[0]:
+            ctx.mismatch(case, f"the all-last-values assignment {brute[0]} is a solution but the real solver yields {got[0]} first")
 
     # ------------------------------------------------------------------ sessions: the property holds for *every* call, whatever
     # was asked before in the same process and whatever became of the earlier result iterators.  Queries on one parsed
@@ -298,12 +408,20 @@ def run(ctx):
 LEVEL_TEXT = ("Kernel-checked Lean 4 theorems about a model of required_use.py: splitting into several constraints preserves the conjunction; the "
               "compiled constraints equal the REQUIRED_USE semantics pkgcore itself checks with (evaluate, then match) on every structure without a "
               "conditional below ||/^^/?? (proved counterexample outside); every assignment of the domains built by find_constraint_satisfaction "
-              "keeps forced-on flags on and forced-off / outside-IUSE flags off, and forced flags outside IUSE change nothing; under the recorded solver contract the solutions are sound, complete, "
-              "duplicate-free and the preferred assignment comes first when it satisfies. Tied to the code by a differential run that compares "
-              "the real solver's solutions (multiset + first) with the model and with a brute-force enumeration judged by the specification, and "
+              "keeps forced-on flags on and forced-off / outside-IUSE flags off, and forced flags outside IUSE change nothing. The solver "
+              "(snakeoil.constraints.Problem) is modelled faithfully - domains with hidden-value and state stacks, forward checking, degree/MRV "
+              "variable choice, backtracking, one-variable preprocessing - and proved, for every problem, sound, complete (a value hidden by forward "
+              "checking has no consistent extension), duplicate-free, to enumerate the values of the branching variable from the end of its domain, "
+              "and to yield the all-last-values assignment first when it is a solution; instantiated with the problem find_constraint_satisfaction "
+              "builds this gives, with no solver contract, that the solutions are sound, complete, duplicate-free and the preferred assignment comes "
+              "first when it satisfies (the earlier contract model is proved to have exactly the same solutions). Tied to the code by a differential "
+              "run that compares the real solver's ORDERED solution sequence with the solver model (REQUIRED_USE queries and random raw constraint "
+              "problems given directly to snakeoil's Problem) and the solutions with a brute-force enumeration judged by the specification, and "
               "that re-asks the same and related queries in one process (after full enumerations, with earlier result iterators suspended, "
               "drained later or closed) demanding the same answer every time.")
-LEVEL_NOTE = ("Partial: snakeoil's backtracking solver is a contracted parameter, not a verified model (checked per run against the real solver). "
+LEVEL_NOTE = ("The solver is no longer a contracted parameter: it is modelled and proved. Trusted about it: that the recursive model is the explicit-queue "
+              "loop of __solve and that set/dict iteration order is immaterial (compared per run, ordered). The solver never calls a constraint "
+              "without variables (proved counterexample; an empty ||/^^/?? group, which the parser never builds). "
               "The model is a pure function of the query; that the real function is one too (no state shared between calls) is checked by the "
               "session runs only. "
               "Open finding: an unmet conditional directly inside ||/^^/?? is compiled to 'true' while pkgcore's own checker and Portage drop it.")
